@@ -167,6 +167,8 @@ def ob_classify(nres):
             got = K[r.res.name]           # forks on the classification actually taken
             check(eq(want, got), 'classification follows the documented rule')
             hh.process_test_result(r)
+            # the failure summary and the is_fail flag of testlog.json (both res.is_bad()) name exactly the runs that make the exit status non-zero
+            check((r in hh.collected_failures) == (r.res.name in BAD) and r.res.is_bad() == (r.res.name in BAD), 'the failure list / is_fail flag agree with the classification')
             counts[r.res.name] += 1
             exp_bad = exp_bad or r.res.name in BAD
             cover(r.res.name)
